@@ -32,7 +32,7 @@ func (P *Prog) CtxSites(f *ssa.Function, pred func(ssa.Instruction) bool) []CtxS
 	var out []CtxSite
 	var walk func(fn *ssa.Function, chain []*ssa.Call, depth int)
 	walk = func(fn *ssa.Function, chain []*ssa.Call, depth int) {
-		Instrs(fn, func(in ssa.Instruction) {
+		InstrsRaw(fn, func(in ssa.Instruction) {
 			if pred(in) {
 				out = append(out, CtxSite{In: in, Chain: append([]*ssa.Call{}, chain...)})
 			}
@@ -96,7 +96,7 @@ func (P *Prog) uniqueSiteOfNewHelper(f *ssa.Function) *ssa.Call {
 	if P.helperSites == nil {
 		P.helperSites = map[*ssa.Function][]*ssa.Call{}
 		for _, fn := range P.RepoFns {
-			Instrs(fn, func(in ssa.Instruction) {
+			InstrsRaw(fn, func(in ssa.Instruction) {
 				if c, ok := in.(*ssa.Call); ok {
 					if h := staticCallee(&c.Call); h != nil && P.isNewHelper(h) {
 						P.helperSites[h] = append(P.helperSites[h], c)
@@ -116,11 +116,40 @@ func (P *Prog) uniqueSiteOfNewHelper(f *ssa.Function) *ssa.Call {
 func (P *Prog) liftToPinned(f *ssa.Function) *ssa.Function {
 	for i := 0; i < 5; i++ {
 		f = enclosingTop(f)
-		s := P.uniqueSiteOfNewHelper(f)
+		s := helperSite(f)
 		if s == nil {
 			return f
 		}
 		f = s.Parent()
 	}
 	return enclosingTop(f)
+}
+
+// pinnedCallersOf: f itself when it belongs to the pinned tree, otherwise the pinned functions that (transitively,
+// through other new helpers) call the new helper f.
+func (P *Prog) pinnedCallersOf(f *ssa.Function) []*ssa.Function {
+	seen := map[*ssa.Function]bool{}
+	var out []*ssa.Function
+	var walk func(g *ssa.Function, d int)
+	walk = func(g *ssa.Function, d int) {
+		if seen[g] {
+			return
+		}
+		seen[g] = true
+		if !P.isNewHelper(enclosingTop(g)) || d > 4 {
+			out = append(out, g) // pinned function or one of its closures: keeps its own name
+			return
+		}
+		g = enclosingTop(g)
+		ins := P.CG().In[g]
+		if len(ins) == 0 {
+			out = append(out, g)
+			return
+		}
+		for _, e := range ins {
+			walk(e.Caller, d+1)
+		}
+	}
+	walk(f, 0)
+	return out
 }
